@@ -178,7 +178,7 @@ func init() {
 	fw.Register(&fw.Prop{
 		ID:   "C15",
 		Race: true,
-		Rule: "cases: (det) groups of 4 generated documents (60 % from a generator biased to ids/anchors/links, out-of-flow boxes broken at page boundaries, string-set/running elements, target-counter, @counter-style, hyphenation in 4 languages, data-URI images, @font-face, tables/flex/grid/columns, pseudo-elements, invalid declarations; 40 % hostile grammar documents of internal/gen; pango or go-text engine), each document rendered in order, re-written, rendered again in reverse order (other history), optionally with one font configuration and one parsed user-agent sheet reused, every group executed a second time in another worker process; (conc) 8 documents rendered sequentially, then by 8 goroutines at once for several rounds with a rotating assignment. All workers are the -race build. Non-trivial: every render of the case completed with a trace, at least one document drew text, and (det, primary copy only) the group produced >= 2 pages in some document; distinct = distinct input.",
+		Rule: "cases: (det) groups of 4 generated documents (60 % from a generator biased to ids/anchors/links, out-of-flow boxes broken at page boundaries, string-set/running elements, target-counter, per-document @counter-style definitions, hyphenation in 4 languages, data-URI and same-URL/different-content images, @font-face, tables/flex/grid/columns, pseudo-elements, invalid declarations, replacement user-agent sheets; 40 % hostile grammar documents of internal/gen; pango or go-text engine): each document rendered and written twice, rendered again in the opposite order (other history, one parsed user-agent sheet object reused), optionally once more with one font configuration reused; every group is executed a second time by another worker process (cases N..2N-1) and compared by the driver; (conc) 8 documents rendered by 8 goroutines at once for 4 (quick) / 12 (thorough) rounds with a rotating assignment, own font configuration per render, half of the cases with one shared parsed user-agent sheet, each concurrent trace compared with the document's sequential trace; (cold) the same with 8 small documents as the very first renders of a fresh process, 2 rounds. One case per worker process; all workers are the -race build and every report of the race detector is a violation. Non-trivial: at least one document of the case drew text and (det, primary copy only) some document has >= 2 pages; distinct = distinct input.",
 		N:    func(tier string) int { s := sz(tier); return 2*s.det + s.conc + s.cold },
 		Gen: func(_ *rand.Rand, i int, tier string) any {
 			return genCase(runSeed(), i, tier)
